@@ -54,7 +54,15 @@ def histories(ctx):
             B = load + ["seek " + ts, "ctl", "tickall 200000 " + GRAN]
             far = sq.dystr(Fraction(float(t + (total - t) * Fraction(3, 4))))
             C = load + ["tick %s %s" % (far, GRAN), "seek " + ts, "ctl", "tickall 200000 " + GRAN]
-            hs.append({"song": song, "t": t, "A": A, "B": B, "C": C})
+            case = {"song": song, "t": t, "A": A, "B": B, "C": C}
+            if t == targets[0]:
+                # the same with a tempo multiplier: seek targets are song time, only ticking is scaled
+                m = rng.choice(["1:1", "1:-1", "1:2"])
+                mv = sq.dy(m)
+                case["m"] = mv
+                case["TA"] = load + ["tempo " + m, "tick %s %s" % (sq.dystr(t / mv), GRAN), "ctl", "tickall 200000 " + GRAN]
+                case["TB"] = load + ["tempo " + m, "seek " + ts, "ctl", "tickall 200000 " + GRAN]
+            hs.append(case)
         # beyond the end, negative
         beyond = sq.dystr(Fraction(float(total + 5)))
         D = load + ["tick 1:-3 " + GRAN, "seek " + beyond, "tell", "tickall 200000 " + GRAN]
@@ -86,7 +94,7 @@ def run(tier, replay=None):
         cases = histories(ctx)
         flat = []
         for c in cases:
-            for k in ("A", "B", "C", "D", "E", "lin"):
+            for k in ("A", "B", "C", "TA", "TB", "D", "E", "lin"):
                 if k in c:
                     flat.append(c[k])
     res = sq.run(flat)
@@ -103,7 +111,7 @@ def run(tier, replay=None):
                 fail("implementation fault: %s" % r[:200], h); break
     for c in cases:
         got = {}
-        for k in ("A", "B", "C", "D", "E", "lin"):
+        for k in ("A", "B", "C", "TA", "TB", "D", "E", "lin"):
             if k in c:
                 got[k] = res[idx][0]; idx += 1
         if c["t"] is not None:
@@ -129,6 +137,21 @@ def run(tier, replay=None):
                 why = same_events(a_ev, events_after(io[-1]))
                 if why:
                     fail("after seeking to %.6f s: %s" % (float(t), why), c[k])
+            if "TA" in got:
+                m = c["m"]
+                ta_ctl, ta_ev = ctl_fields(got["TA"][-2]), events_after(got["TA"][-1])
+                io = got["TB"]
+                tell = sq.field(sq.core(io[-3]), "tell")
+                cf = ctl_fields(io[-2])
+                if tell is None or sq.dy(tell) != t:
+                    fail("with tempo multiplier %s: after seeking to %s the reported position is %s" % (float(m), sq.dystr(t), tell), c["TB"])
+                elif cf is None or ta_ctl is None or cf[2:] != ta_ctl[2:] or cf[0] != 0:
+                    fail("with tempo multiplier %s: controller state after seeking to %.6f s differs from linear playback to that song time (or notes still sound)" % (float(m), float(t)), c["TB"])
+                else:
+                    # real-time stamps: the linear run stands at t/m, the seek run's clock was set to the song position t
+                    why = same_events([(a, b - t / m, f) for (a, b, f) in ta_ev], [(a, b - t, f) for (a, b, f) in events_after(io[-1])])
+                    if why:
+                        fail("with tempo multiplier %s, after seeking to %.6f s: %s" % (float(m), float(t), why), c["TB"])
         else:
             D, E, lin = got["D"], got["E"], got["lin"]
             if sq.core(D[-2]) != "ret=0:0":
